@@ -16,7 +16,7 @@ from ..common import rng_for, b2j
 
 LEVEL = "exploration"
 SHARDS = {"quick": 1, "thorough": 16}
-REQUIRED = ("packs_compared_with_reference_encoding", "reparse_compared", "assert_consistency_true", "insert_traces_compared",
+REQUIRED = ("repacks_after_assignment", "packs_compared_with_reference_encoding", "reparse_compared", "assert_consistency_true", "insert_traces_compared",
             "built_by_kwargs", "built_by_attrs", "built_by_mixed", "nested_trees", "boundary_int_values", "empty_lists", "absent_optionals",
             "f2_probe_runs")
 MIN_NONTRIVIAL = 150
@@ -69,6 +69,28 @@ def tree_stats(run, fam, pv, top=True):
             if isinstance(x, model.PV):
                 run.count("nested_trees")
                 tree_stats(run, fam, x, False)
+
+
+def repack_edits(fam, pv, rng, depth=0):
+    """A few (path, field, new in-domain value) edits of plain leaves that do not steer the layout."""
+    decl = fam["decls"][pv.decl]
+    out = []
+    for f in decl["fields"]:
+        if "rep" in f or "opt" in f or f.get("hint") or "describe" in f:
+            continue
+        v = pv.vals.get(f["name"])
+        if f["t"] == "bits" and isinstance(v, int) and v:
+            out.append(([f["name"]], f, v & (v - 1)))          # clear the lowest set bit
+            out.append(([f["name"]], f, 0))
+        elif f["t"] == "int" and isinstance(v, int) and not isinstance(v, bool) and v > 0:
+            out.append(([f["name"]], f, v >> 1))
+        elif f["t"] == "data" and f["mode"] == "const" and isinstance(v, bytes) and v:
+            out.append(([f["name"]], f, bytes(len(v))))
+        elif f["t"] == "ref" and isinstance(v, model.PV) and depth < 2:
+            for p, ff, nv in repack_edits(fam, v, rng, depth + 1)[:2]:
+                out.append(([f["name"]] + p, ff, nv))
+    rng.shuffle(out)
+    return out[:3]
 
 
 def judge_tree(run, bench, pv, rng, mon):
@@ -154,6 +176,31 @@ def judge_tree(run, bench, pv, rng, mon):
                 run.violation("assert_consistency() returned %r" % (ok,), witness, None)
                 continue
             run.count("assert_consistency_true")
+            # attribute assignment on the packet that has just been packed: a second serialization must be the
+            # encoding of the *new* values (nothing of the first one may linger)
+            for path, f, newv in repack_edits(fam, pv, rng):
+                m = model.copy_val(pv)
+                tgt, obj = m, pkt
+                for name in path[:-1]:
+                    tgt = tgt.vals[name]
+                    obj = getattr(obj, name)
+                old = tgt.vals[path[-1]]
+                tgt.vals[path[-1]] = newv
+                st3, er3 = harness.model_encode(fam, m)
+                if st3 != "ok":
+                    continue
+                st4, mr4 = harness.model_parse(fam, er3.data, 0)
+                if st4 != "ok" or mr4.value != m:
+                    continue
+                setattr(obj, path[-1], newv)
+                r3 = harness.lib_pack(pkt)
+                run.count("repacks_after_assignment")
+                if r3.status != "ok" or r3.pkt != er3.data:
+                    run.violation("after assigning a field on an already serialized packet, pack() is not the encoding of the new values",
+                                  dict(witness, assigned={"path": path, "old": model.val_json(old), "new": model.val_json(newv)},
+                                       packed=b2j(r3.pkt) if r3.status == "ok" else str(r3.err)[:200], reference=b2j(er3.data)), None)
+                    break
+                setattr(obj, path[-1], old)
 
 
 def f2_probe(run):
